@@ -273,6 +273,16 @@ func (c *StreamClient) TakeCloses() []uint16 {
 	sort.Slice(r, func(i, j int) bool { return r[i] < r[j] })
 	return r
 }
+// AllObservers returns the observers of the streams opened last, by vBucket.
+func (c *StreamClient) AllObservers() map[uint16]couchbase.Observer {
+	c.mu.Lock()
+	defer c.mu.Unlock()
+	r := map[uint16]couchbase.Observer{}
+	for k, v := range c.Observers {
+		r[k] = v
+	}
+	return r
+}
 func (c *StreamClient) Observer(vb uint16) couchbase.Observer {
 	c.mu.Lock()
 	defer c.mu.Unlock()
